@@ -1,4 +1,4 @@
-namespace TV.Race
+namespace TV.RaceOld
 
 /-- one dial task of `ProbeAndDial` -/
 inductive Task | probing | established | offered | closed | cancelled | failed
@@ -58,4 +58,4 @@ theorem listener_disagrees :
     (run (init 2) [.handshake 1, .handshake 0, .offer 0, .mainRecv, .offer 1]).map
       (fun s => (s.returned, s.serverOrder.head?)) = some (some 0, some 1) := by decide
 
-end TV.Race
+end TV.RaceOld
